@@ -24,16 +24,24 @@ from checks import mergecheck
 PID = "C11"
 
 
-def event_of(r):
+def event_of(r, two=False):
     s0 = r["snaps"][0]
     s1 = r["snaps"][1]
     tree = s0["tree"]
-    G = gm.flat(graphlib.graph_of_tree(tree))
     panic = ("check_panic" in s0) or ("check_panic" in s1) or ("panic" in s1)
     reports = sorted({c["target_name"] for c in s1.get("check", []) if c["class"] == "CrossReferenceError"})
-    this = sorted({(t[3], t[3][5:]) for t in G["refs"] if t[3].startswith("THIS.")})
-    return {"ev": "check", "G": G, "reports": reports, "comps": gm.components(gm.module_of(tree)), "this": [list(x) for x in this],
-            "panic": panic, "pure": bool(s1.get("pure", True))}, (s0.get("check_panic") or s1.get("check_panic") or s1.get("panic"))
+    pmsg = s0.get("check_panic") or s1.get("check_panic") or s1.get("panic")
+
+    def part(k):
+        G = gm.flat(graphlib.graph_of_tree(tree, k))
+        this = sorted({(t[3], t[3][5:]) for t in G["refs"] if t[3].startswith("THIS.")})
+        return G, gm.components(gm.module_of(tree, k)), [list(x) for x in this]
+    G, comps, this = part(0)
+    ev = {"ev": "check", "G": G, "reports": reports, "comps": comps, "this": this, "panic": panic, "pure": bool(s1.get("pure", True))}
+    if two:
+        G1, comps1, this1 = part(1)
+        ev.update({"ev": "check2", "G1": G1, "comps1": comps1, "this1": this1})
+    return ev, pmsg
 
 
 def run(tier, selftest):
@@ -55,11 +63,14 @@ def run(tier, selftest):
     for i in range(1200 if thorough else 25):
         _, b = mergecheck.random_pair(rng, rng.choice([30, 60, 120, 240] if thorough else [20, 40]))
         rand_cases.append({"id": {"fam": "random", "n": i}, "G": mergecheck.to_abstract(b)})
-    allc = cases + rand_cases
+    from checks import c10
+    two = c10.two_module_cases(cases, 1 if thorough else 7)
+    allc = cases + rand_cases + two
     mo = []
     for i, c in enumerate(allc):
         g = graphlib.abstract_to_graph(c["G"])
-        mo.append({"id": i, "a": gm.render(g), "ops": ["check"]})
+        text = gm.render2(graphlib.abstract_to_graph(c["G0"]), g) if "G0" in c else gm.render(g)
+        mo.append({"id": i, "a": text, "ops": ["check"]})
     out = graphlib.run_ops(binp, mo, "check")
     events, idx = [], []
     for i, c in enumerate(allc):
@@ -67,7 +78,7 @@ def run(tier, selftest):
         if r is None or "snaps" not in r:
             why = (r or {}).get("load_a_error") or (r or {}).get("harness_panic") or "no result"
             vlib.tool_error(f"generated case does not load ({c['id']}): {why}\n{mo[i]['a']}")
-        ev, pmsg = event_of(r)
+        ev, pmsg = event_of(r, bool(c["id"].get("two")))
         ev["_panic_msg"] = pmsg or ""
         events.append(ev)
         idx.append(i)
@@ -104,6 +115,7 @@ def run(tier, selftest):
         "samples": [cases[0], cases[len(cases) // 2]["id"]],
         "case_families": fams,
         "random_modules": len(rand_cases),
+        "files_with_two_modules": len(two),
         "events_rejected": len(failed),
     }
     if binding:
@@ -128,7 +140,7 @@ def replay(path):
             rep.violation(f"check-spec:{res.violation}", "TLC property violated", case)
     else:
         out = graphlib.run_ops(binp, [{"id": 0, "a": case["a"], "ops": ["check"]}], "replay")
-        ev, pmsg = event_of(out[0])
+        ev, pmsg = event_of(out[0], bool(case.get("case", {}).get("id", {}).get("two")))
         failed, _ = graphlib.judge([ev], "Trace_Graph_C11", "replay")
         if failed:
             rep.violation(f"check:{'+'.join(failed[0])}", f"check() violates {failed[0]} {pmsg or ''}", case)
